@@ -644,3 +644,23 @@ Proof. induction regs as [|r regs IH]; cbn; [reflexivity|]. rewrite IH. reflexiv
 
 Lemma chunk_dict_keys S regs : keys (chunk_dict S regs) = table S regs.
 Proof. unfold chunk_dict, keys. rewrite map_map. cbn. apply map_id. Qed.
+
+(* a loop that only validates *)
+Lemma py_for_check {A} (c : A -> bool) (e : exn) (l : list A) (body : A -> unit -> res (unit * bool)) :
+  (forall x st, body x st = if c x then Err e else Ok (tt, false)) ->
+  py_for l body tt = if existsb c l then Err e else Ok tt.
+Proof.
+  intros H. induction l as [|x l IH]; [reflexivity|]. cbn [py_for existsb]. rewrite H.
+  destruct (c x); [reflexivity|]. cbn. exact IH.
+Qed.
+
+Lemma rng_of_mkreg x : rng_of (mkreg x) = x.
+Proof. destruct x; reflexivity. Qed.
+
+Lemma ascending_NoDup_rng regs : ascending regs -> NoDup (map rng_of regs).
+Proof.
+  unfold ascending. induction regs as [|r regs IH]; intros H; [constructor|].
+  apply StronglySorted_inv in H. destruct H as [H1 H2]. cbn. constructor; [|apply IH; exact H1].
+  intros Hin. apply in_map_iff in Hin. destruct Hin as (r' & E & Hr'). rewrite Forall_forall in H2.
+  specialize (H2 r' Hr'). unfold rng_of in E. inversion E. lia.
+Qed.
